@@ -628,6 +628,69 @@ def corr_spec(ctx, sf, spec, reqs, pending, make=None, text=True):
             ctx.disagree("XIR text layer raises on an expressible program", case, "identity", repr(e)[:200])
 
 
+def corr_code(ctx, sf, spec, reqs, pending):
+    """generate_code: the model's printed AST against the parsed real text, and the meaning of the printed
+    code (model `evalCode`) against what executing the real text builds"""
+    p = ioir.build(spec)
+    if code_group(spec, p) is not None:
+        return
+    pj = ioir.prog_json(p)
+    code = sf.io.generate_code(ioir.build(spec))
+    real = ioir.code_json(code)
+    if real["tdmN"] is None:
+        pj["n"] = p.num_subsystems
+    else:
+        real["n"] = pj["n"]          # TDM code states N only
+    reqs.append(dict(op="io.genCode", prog=pj)); pending.append(("genCode vs generate_code", dict(spec=spec), real))
+    ns = {"np": np}
+    exec(code, ns)  # noqa: S102
+    built = ioir.prog_json(ns["prog"])
+    built.update(name="", target=None, shots=None, cutoff=None, extra=[])
+    reqs.append(dict(op="io.evalCode", prog=pj)); pending.append(("evalCode(genCode) vs exec(generate_code)", dict(spec=spec), {"ok": built}))
+
+
+def close_json(a, b):
+    """equal up to the last bits of floats (the model evaluates c*np.pi/d exactly, Python in float64)"""
+    if isinstance(a, dict) and isinstance(b, dict) and set(a) == set(b) == {"f"}:
+        x, y = a["f"][0] / a["f"][1], b["f"][0] / b["f"][1]
+        return abs(x - y) <= 1e-14 * max(1.0, abs(x))
+    if isinstance(a, dict) and isinstance(b, dict):
+        return set(a) == set(b) and all(close_json(a[k], b[k]) for k in a)
+    if isinstance(a, list) and isinstance(b, list):
+        return len(a) == len(b) and all(close_json(x, y) for x, y in zip(a, b))
+    return a == b
+
+
+def corr_num(ctx, sf, rng):
+    """_factor_out_pi on arbitrary numbers: exact multiples, numbers just below / above a multiple (inside and
+    outside the isclose window, which is asymmetric), ints, random floats"""
+    from strawberryfields.io.utils import _factor_out_pi
+    if not ctx.proof_ok:
+        return
+    f = float(np.pi / 12)
+    xs = []
+    for _ in range(ctx.n(400, 4000)):
+        m = rng.randint(-60, 60)
+        r = rng.random()
+        if r < 0.25:
+            xs.append(m * f)
+        elif r < 0.6:
+            xs.append(m * f + rng.choice([1, -1]) * rng.choice([1e-12, 5e-9, 9e-9, 2e-8, 1e-6, 2.5e-6, 2.7e-6, 1e-5, 1e-3]))
+        elif r < 0.7:
+            xs.append(rng.randint(-9, 9))
+        elif r < 0.8:
+            xs.append(rng.randint(-16, 16) / 8)
+        else:
+            xs.append(rng.uniform(-20, 20))
+    res = ctx.lean([dict(op="io.genNum", x=ioir.sc(x)) for x in xs])
+    for x, model in zip(xs, res):
+        ctx.corr_cases += 1
+        impl = ioir.pyarg_json(_factor_out_pi([x]))
+        ctx.tally("genNum:" + next(iter(impl)))
+        if impl != model:
+            ctx.disagree("genNum vs _factor_out_pi", dict(x=x), model, impl)
+
+
 def _strip_unmodelled(model, impl):
     return isinstance(model, dict) and model.get("err") == "unmodelled"
 
@@ -640,7 +703,7 @@ def compare(ctx, reqs, pending):
             ctx.tally("corr-skipped:unmodelled-kwarg")
             continue
         ctx.corr_cases += 1
-        if model != impl:
+        if model != impl and not (pair.startswith("evalCode") and close_json(model, impl)):
             ctx.disagree(pair, case, model, impl)
 
 
@@ -712,6 +775,7 @@ def one_spec(ctx, sf, spec, kind, idx, reqs, pending, prev, via=None):
     ctx.count(kind, spec, nontrivial(spec), sample=spec)
     guarded(ctx, "oracle", spec, oracle_spec, ctx, sf, spec, via=via or ("file" if idx % 5 == 0 else "text"))
     guarded(ctx, "correspondence", spec, corr_spec, ctx, sf, spec, reqs, pending)
+    guarded(ctx, "correspondence(code)", spec, corr_code, ctx, sf, spec, reqs, pending)
     if prev is not None and idx % 3 == 0 and bool(prev.get("tdm")) == bool(spec.get("tdm")):
         oracle_history(ctx, sf, spec, prev, share=(idx % 2 == 0))
     if idx % 2 == 0 and runnable_backend(spec) == "gaussian" and not any(o["cls"] in ("Del", "New") for o in spec["ops"]):
@@ -732,6 +796,7 @@ def run(ctx, sf):
     rng = ctx.rng
     reqs, pending = [], []
     corr_pi(ctx, sf)
+    corr_num(ctx, sf, rng)
     for m in list(range(-150, 151)) + [12 * k for k in (13, 17, 25, 100, -33)]:
         for val in (m * np.pi / 12, np.pi * m / 12, m * (np.pi / 12)):   # the three roundings of m*pi/12
             oracle_pi(ctx, sf, float(val))
